@@ -481,6 +481,202 @@ _SEED_FALLBACK = ("def seed_tuple (filename slice : List Nat) : List Nat := SslS
                   "def gaussian_seed (t : List Nat) : Int := SslSplit.gaussianSeed t\n")
 
 
+# ---- the SSL branch of build_mri_transforms and the keys the SSL engines read ---------------------
+MT = "direct/data/mri_transforms.py"
+ENG = "direct/nn/mri_models.py"
+SSLENG = "direct/nn/ssl/mri_models.py"
+TYPES = "direct/types.py"
+
+
+def _enum_table() -> dict[str, str]:
+    """`TransformKey.ACS_MASK` -> "acs_mask" for the string enums the key expressions use"""
+    table = {}
+    for rel in (TYPES, SSL, MT):
+        for node in ast.walk(parse_file(REPO / rel)):
+            if isinstance(node, ast.ClassDef):
+                for st in node.body:
+                    if (isinstance(st, ast.Assign) and len(st.targets) == 1 and isinstance(st.targets[0], ast.Name)
+                            and isinstance(st.value, ast.Constant) and isinstance(st.value.value, str)):
+                        table[f"{node.name}.{st.targets[0].id}"] = st.value.value
+    return table
+
+
+def _sval(node, enums, env=None) -> str:
+    env = env or {}
+    if isinstance(node, ast.Constant) and isinstance(node.value, str):
+        return node.value
+    t = ast.unparse(node)
+    if t in env:
+        return env[t]
+    if t in enums:
+        return enums[t]
+    if isinstance(node, ast.BinOp) and isinstance(node.op, ast.Add):
+        return _sval(node.left, enums, env) + _sval(node.right, enums, env)
+    raise Untranslatable(f"key expression `{t}`")
+
+
+def _slist(node, enums, env=None) -> list[str]:
+    if not isinstance(node, (ast.List, ast.Tuple)):
+        raise Untranslatable(f"`{ast.unparse(node)}` is not a list of keys")
+    return [_sval(e, enums, env) for e in node.elts]
+
+
+def _lstr(xs) -> str:
+    return "[" + ", ".join(f'"{x}"' for x in xs) + "]"
+
+
+def _split_keys(enums):
+    """what MaskSplitter.forward reads and writes, with the k-space key as placeholder"""
+    fwd = find_function(parse_file(REPO / SSL), "MaskSplitter.forward")
+    K = "«K»"
+    env = {"self.kspace_key": K}
+    writes = []
+    for st in all_stmts(fwd):
+        if isinstance(st, ast.Assign) and len(st.targets) == 1:
+            tg = st.targets[0]
+            tgs = tg.elts if isinstance(tg, ast.Tuple) else [tg]
+            if isinstance(tgs[0], ast.Subscript) and ast.unparse(tgs[0].value) == "sample":
+                writes.append((_sval(tgs[0].slice, enums, env), _txt(st.value)))
+    want = ["apply_mask(kspace,input_mask)", "apply_mask(kspace,target_mask)", "input_mask", "target_mask"]
+    if [w[1] for w in writes] != want:
+        raise Untranslatable(f"forward writes {[w[1] for w in writes]}")
+    k_in, k_tg, m_in, m_tg = [w[0] for w in writes]
+    if not (k_in.endswith(K) and k_tg.endswith(K)):
+        raise Untranslatable("split k-space keys are not <prefix> + kspace_key")
+    ip, tp = k_in[:-len(K)], k_tg[:-len(K)]
+    if not (m_in.startswith(ip) and m_tg.startswith(tp)) or m_in[len(ip):] != m_tg[len(tp):]:
+        raise Untranslatable("split mask keys are not <prefix> + <mask key>")
+    mk = m_in[len(ip):]
+    reads = {ast.unparse(st.targets[0]): st.value for st in fwd.body if isinstance(st, ast.Assign) and len(st.targets) == 1}
+    if "sampling_mask" not in reads or "kspace" not in reads or "acs_mask" not in reads:
+        raise Untranslatable("forward's reads of sampling_mask / kspace / acs_mask")
+    if _txt(reads["sampling_mask"]) != f"sample['{mk}'].clone()" or _txt(reads["kspace"]) != "sample[self.kspace_key].clone()":
+        raise Untranslatable("forward does not read sample[mask key] / sample[self.kspace_key]")
+    acs = reads["acs_mask"]
+    if not (isinstance(acs, ast.IfExp) and _txt(acs.test) == "self.keep_acs" and _txt(acs.orelse) == "None"):
+        raise Untranslatable("forward's acs_mask read")
+    ak = _txt(acs.body).replace("sample['", "").replace("'].clone()", "")
+    return ip, tp, mk, ak
+
+
+def _ssl_tail() -> str:
+    enums = _enum_table()
+    fn = find_function(parse_file(REPO / MT), "build_mri_transforms")
+    body = fn.body
+    cut = None
+    for i, st in enumerate(body):
+        if (isinstance(st, ast.If) and _txt(st.test) == "transforms_type==TransformsType.SUPERVISED"
+                and len(st.body) == 1 and isinstance(st.body[0], ast.Return)):
+            cut = i
+    if cut is None:
+        raise Untranslatable("`if transforms_type == TransformsType.SUPERVISED: return …` not found")
+    ops = []
+    flag = body[cut - 1]
+    if not (isinstance(flag, ast.AugAssign) and _txt(flag.value) ==
+            "[AddBooleanKeysModule(['is_ssl'],[transforms_type!=TransformsType.SUPERVISED])]"):
+        raise Untranslatable("the `is_ssl` flag statement before the supervised return")
+    ops.append('.addFlag "is_ssl" true')
+    ip, tp, mk, ak = _split_keys(enums)
+    kwargs = None
+    for st in body[cut + 1:]:
+        if isinstance(st, ast.Assign) and ast.unparse(st.targets[0]) == "mask_splitter_kwargs" and isinstance(st.value, ast.Dict):
+            kwargs = {_sval(k, enums): v for k, v in zip(st.value.keys, st.value.values)}
+            continue
+        if isinstance(st, ast.Return):
+            if _txt(st.value) != "Compose(mri_transforms)":
+                raise Untranslatable("SSL branch does not return Compose(mri_transforms)")
+            continue
+        if not (isinstance(st, ast.AugAssign) and ast.unparse(st.target) == "mri_transforms" and isinstance(st.value, ast.List)):
+            raise Untranslatable(f"statement `{ast.unparse(st)[:60]}` in the SSL branch")
+        for el in st.value.elts:
+            calls = []
+            node = el
+            while isinstance(node, ast.IfExp):          # splitter chosen by type
+                calls.append(node.body)
+                node = node.orelse
+            calls.append(node)
+            names = [ast.unparse(c.func) if isinstance(c, ast.Call) else "?" for c in calls]
+            if len(calls) > 1 or names[0].endswith("MaskSplitter"):
+                if kwargs is None or not all(n.endswith("MaskSplitter") for n in names):
+                    raise Untranslatable(f"splitter stage {names}")
+                for c in calls:
+                    if not any(k.arg is None for k in c.keywords):
+                        raise Untranslatable("splitter built without **mask_splitter_kwargs")
+                if ast.unparse(kwargs.get("keep_acs")) != "mask_split_keep_acs":
+                    raise Untranslatable("keep_acs of the splitter")
+                kk = _sval(kwargs["kspace_key"], enums)
+                ops.append(f'.split "{kk}" keep "{ip}" "{tp}" "{mk}" "{ak}"')
+            elif names[0] == "DeleteKeys":
+                ops.append(f".delete {_lstr(_slist(calls[0].args[0], enums))}")
+            elif names[0] == "RenameKeys":
+                ops.append(f".rename {_lstr(_slist(calls[0].args[0], enums))} {_lstr(_slist(calls[0].args[1], enums))}")
+            elif names[0] == "ComputeImage":
+                kw = {k.arg: k.value for k in calls[0].keywords}
+                ops.append(f'.computeImage "{_sval(kw["kspace_key"], enums)}" "{_sval(kw["target_key"], enums)}"')
+            else:
+                raise Untranslatable(f"transform `{names[0]}` in the SSL branch")
+    return ("/-- translated from `build_mri_transforms`: the transforms after the supervised ones (SSL branch) -/\n"
+            "def ssl_tail (keep : Bool) : List SslSplit.KeyOp :=\n  [" + ",\n   ".join(ops) + "]\n")
+
+
+_TAIL_FALLBACK = (
+    "def ssl_tail (keep : Bool) : List SslSplit.KeyOp :=\n"
+    '  [.addFlag "is_ssl" true, .split "masked_kspace" keep "input_" "target_" "sampling_mask" "acs_mask",\n'
+    '   .delete ["acs_mask"], .rename ["input_masked_kspace", "target_masked_kspace"] ["input_kspace", "kspace"],\n'
+    '   .delete ["masked_kspace", "sampling_mask"], .computeImage "kspace" "target"]\n')
+
+
+def _data_key(node) -> str:
+    if (isinstance(node, ast.Subscript) and ast.unparse(node.value) == "data" and isinstance(node.slice, ast.Constant)
+            and isinstance(node.slice.value, str)):
+        return node.slice.value
+    raise Untranslatable(f"`{ast.unparse(node)}` is not data[<key>]")
+
+
+def _engine_reads(cls: str, name: str) -> str:
+    fn = find_function(parse_file(REPO / SSLENG), f"{cls}._do_iteration")
+    got = {}
+    for st in all_stmts(fn):
+        if (isinstance(st, ast.Assign) and len(st.targets) == 1 and ast.unparse(st.targets[0]) in ("kspace", "mask")
+                and isinstance(st.value, ast.IfExp) and _txt(st.value.test) == "self.model.training"):
+            which = ast.unparse(st.targets[0])
+            got["train" + which], got["eval" + which] = _data_key(st.value.body), _data_key(st.value.orelse)
+        if isinstance(st, ast.If) and _txt(st.test) in ("is_sslandself.model.training", "self.model.trainingandis_ssl") and st.orelse:
+            for branch, stmts in (("train", st.body), ("eval", st.orelse)):
+                for s2 in stmts:
+                    if (isinstance(s2, ast.Assign) and _txt(s2.targets[0]) in ("(kspace,mask)", "kspace,mask")
+                            and isinstance(s2.value, ast.Tuple)):
+                        got[branch + "kspace"], got[branch + "mask"] = _data_key(s2.value.elts[0]), _data_key(s2.value.elts[1])
+        if isinstance(st, ast.If) and "self.model.training" in _txt(st.test) and not st.orelse:
+            for c in ast.walk(st):
+                if (isinstance(c, ast.Call) and ast.unparse(c.func) == "T.apply_mask" and len(c.args) >= 2
+                        and ast.unparse(c.args[0]) == "output_kspace" and isinstance(c.args[1], ast.Subscript)):
+                    got["project"] = _data_key(c.args[1])
+    loss = find_function(parse_file(REPO / ENG), "MRIModelEngine.compute_loss_on_data")
+    for st in all_stmts(loss):
+        if isinstance(st, ast.Assign) and isinstance(st.value, ast.Tuple) and len(st.value.elts) == 3:
+            first = ast.unparse(st.value.elts[0])
+            if first == "output_kspace":
+                got["lossK"] = _data_key(st.value.elts[1])
+            elif first == "output_image":
+                got["lossImage"] = _data_key(st.value.elts[1])
+    need = ["trainkspace", "trainmask", "evalkspace", "evalmask", "project", "lossK", "lossImage"]
+    miss = [k for k in need if k not in got]
+    if miss:
+        raise Untranslatable(f"{cls}._do_iteration: could not find {miss}")
+    return (f"/-- translated from `{cls}._do_iteration` and `MRIModelEngine.compute_loss_on_data` -/\n"
+            f"def {name} : SslSplit.EngineReads :=\n"
+            f'  {{ trainK := "{got["trainkspace"]}", trainMask := "{got["trainmask"]}", evalK := "{got["evalkspace"]}", '
+            f'evalMask := "{got["evalmask"]}",\n    project := "{got["project"]}", lossK := "{got["lossK"]}", '
+            f'lossImage := "{got["lossImage"]}" }}\n')
+
+
+def _reads_fallback(name: str) -> str:
+    return (f"def {name} : SslSplit.EngineReads :=\n"
+            '  { trainK := "input_kspace", trainMask := "input_sampling_mask", evalK := "masked_kspace", evalMask := "sampling_mask",\n'
+            '    project := "target_sampling_mask", lossK := "kspace", lossImage := "target" }\n')
+
+
 def _c11_extra():
     chunks, status = [], {}
 
@@ -525,6 +721,10 @@ def _c11_extra():
             'def draws_in_temp_seed : List (String × Bool) := [("gaussian:self._choose_ratio", true), '
             '("uniform:self._choose_ratio", true), ("uniform:uniform_fill", true)]\n')
     attempt("half_diagonals", _half_diag, _HALF_DIAG_FALLBACK)
+    attempt("ssl_tail", _ssl_tail, _TAIL_FALLBACK)
+    attempt("ssl_engine_reads", lambda: _engine_reads("SSLMRIModelEngine", "ssl_engine_reads"), _reads_fallback("ssl_engine_reads"))
+    attempt("jssl_engine_reads", lambda: _engine_reads("JSSLMRIModelEngine", "jssl_engine_reads"),
+            _reads_fallback("jssl_engine_reads"))
     attempt("seeds", lambda: _seeds(tree if tree is not None else need("x")), _SEED_FALLBACK)
     return "\n".join(chunks), status
 
